@@ -220,6 +220,13 @@ def run_geom(rng, thorough, out):
             v = general_coords(nv, rng)
             v[:, 1] = v[:, 0]
             e = np.array([[0, 1, 2], [2, 3, 4]], dtype="uint32").T
+        if style != 3:
+            # keep clear of exactly collinear vertices: numpy.linalg.inv only raises when the rounded J^T J is exactly
+            # singular, which is not decidable from the exact coordinates
+            ee = e.astype(np.int64)
+            cr = np.cross(v[:, ee[1]].T - v[:, ee[0]].T, v[:, ee[2]].T - v[:, ee[0]].T)
+            if np.min(np.linalg.norm(cr, axis=1)) < 1e-3:
+                continue
         g, kind, name = try_grid(v, e)
         cases.append({"vs": [[fr(x) for x in col] for col in v.T], "els": [[int(x) for x in col] for col in e.T],
                       "kind": kind, "exc": name, "geom": geom_record(g) if g is not None else None})
